@@ -327,7 +327,7 @@ def run(tier, work):
         samples=samples, evaluations=len(exs), distinct_nontrivial=nontrivial,
         rule="write lengths x LF patterns x send-result plans x flush points printed by TLC from OutRingGen; non-trivial = some "
              "send result other than 'all' or a message of at least 4095 bytes; distinct by JSON text",
-        exhaustive=False, events_validated=nevents, driver_failures=ncrash),
+        exhaustive=False, enumerated_run=nexh, events_validated=nevents, driver_failures=ncrash),
         time.time() - t0, len(verdict.new),
         ["byte contents are compared by the projection (tools), the protocol/accounting by TLC", "scripted send() results"])
     return rc
